@@ -360,6 +360,11 @@ class Coordinator(object):
         return result
 
     def rejoin_after_error(self, result, label="rejoin_after_error"):
+        if self._stopping:
+            # We are leaving the group: whatever failed, there is nothing to rejoin.
+            log.debug("%s %s: ignoring %s while stopping", self, label, result.value)
+            return
+
         rejoin_delay = self.retry_backoff_ms
 
         if result.check(RebalanceInProgress):
@@ -471,6 +476,9 @@ class Coordinator(object):
 
         self._state = "[joining]"
         yield self.on_join_prepare()
+        if self._stopping:
+            # stop() was called while the previous generation's consumers shut down
+            return
         join_response = yield self.send_join_group_request()
         if not join_response or self._stopping:
             # join failed, we'll be called again after a small delay
